@@ -277,6 +277,7 @@ def check_history(ctx: Ctx, hist: dict, model_out: str | None, enc) -> None:
     names = enc[-1]["names"]
     inv = {v: k for k, v in names.items()}
     ctx.count("traces_validated_against_impl")
+    written_in: dict[str, frozenset] = {}      # module -> the import-cycle group it was in when its record was last written
     for k, (st, part) in enumerate(zip(hist["steps"], parts)):
         fields = dict(x.split("=", 1) for x in part.split())
         mrech = sorted(inv[int(x)] for x in fields.get("rechecked", "").split(",") if x)
@@ -288,7 +289,16 @@ def check_history(ctx: Ctx, hist: dict, model_out: str | None, enc) -> None:
         for scc in st["warm"].get("sccs") or []:
             if stale_m & set(scc):
                 stale_m |= set(B.user_modules(scc))
-        mrech = sorted(stale_m)
+        group_now = {m: frozenset(B.user_modules(scc)) for scc in st["warm"].get("sccs") or [] for m in scc}
+        # GroupingStable is an assumption of the model, not a rule of mypy: a module whose import-cycle group is
+        # not the one its record was written in is re-analysed by the model (SCC-wide source differs) while mypy
+        # keeps the record when the module's own source and its dependencies' interfaces are unchanged
+        regrouped = {m for m in stale_m if m not in rrech and m in written_in and written_in[m] != group_now.get(m)}
+        if regrouped:
+            ctx.count("grouping_changes_seen", len(regrouped))
+        mrech = sorted(stale_m - regrouped)
+        for m in rrech:
+            written_in[m] = group_now.get(m, frozenset([m]))
         miss = int(fields.get("miss", "0"))
         if miss:
             ctx.count("oracle_misses", miss)
